@@ -285,6 +285,38 @@ def w_grid(cs):
     return [job(2, 3, 0x10, 0xAAAA), job(3, 1, 0x40, 0xBBBB), job(4, 2, 0x80, 0xCCCC)]
 
 
+def w_wsurrogate(cs):
+    T = cs.s
+
+    def job(ident, name, crc):
+        d = bytes([ident]) + name.encode("utf-16-le") + b"\x00\x00" + crc.to_bytes(2, "little") + b"\xEE"
+
+        def f():
+            s = io.BytesIO(d)
+            o = T(s)
+            return (norm(o), s.tell(), o.dumps() == d[: s.tell()])
+        return f
+    # characters outside the basic plane (two code units each) at the start, in the middle and at the end
+    return [job(1, "a\U0001F600z", 0x1111), job(2, "\U00010437hi\U0001F400", 0x2222), job(3, "x\U0001F4A9\U0001F4A9", 0x3333)]
+
+
+def w_construct(cs):
+    T = cs.s
+
+    def job(ident, a, b, c):
+        def f():
+            m = T(id=ident)
+            # changes in place, two levels below the instance, of members that were left at their defaults
+            m.h.tags[0] = a
+            m.pts[1].x = b
+            m.grid[1][0] = c
+            m.h.flags = a ^ 0xFF
+            n = T()
+            return (m.dumps(), norm(m), n.dumps(), T(m.dumps()) == m)
+        return f
+    return [job(0x0A0A, 0xA1, 0xA2, 0xA3), job(0x0B0B, 0xB1, 0xB2, 0xB3), job(0x0C0C, 0xC1, 0xC2, 0xC3)]
+
+
 WORKLOADS = [
     ("expr", "struct s { uint8 n; uint8 m; char d[(n + m) * 2 - 1]; uint16 v[n]; uint8 z; };", w_expr),
     ("bits", "enum E : uint8 { A, B, C };\nstruct s { uint16 a:3; uint16 b:13; E e:4; uint8 r:4; int32 x; };", w_bits),
@@ -309,6 +341,11 @@ WORKLOADS = [
     # a union whose first member is not its largest: written directly and compared with its terminator while parsing
     ("unionwrite", "union U { uint8 tag; uint32 value; uint16 half[2]; };\nstruct s { uint8 n; U items[]; uint8 tail; };",
      w_unionwrite),
+    # NUL-terminated wide strings with characters of two code units (a decoder fed unit by unit holds state in between)
+    ("wsurrogate", "struct s { uint8 id; wchar name[]; uint16 crc; };", w_wsurrogate),
+    # instances that are constructed, not parsed: members left at their defaults are changed in place below the top level
+    ("construct", "struct hdr { uint8 flags; uint8 tags[3]; };\nstruct pt { uint8 x; uint16 y; };\n"
+                  "struct s { uint16 id; hdr h; pt pts[2]; uint8 grid[2][2]; uint8 t; };", w_construct),
 ]
 
 
@@ -355,6 +392,20 @@ def run(ctx):
         for wi, ((wname, text, factory), compiled) in enumerate(jobs_list):
             cs, jobs = build(wname, text, factory, compiled)
             seq = [j() for j in jobs]  # sequential reference (no scheduler active)
+            # ... which is what each job gives on its own, on types nothing else has used (a thread's result must not
+            # depend on the threads that ran before it either)
+            solo = []
+            for ji in range(len(jobs)):
+                _cs1, jobs1 = build(wname, text, factory, compiled)
+                solo.append(jobs1[ji]())
+            ctx.evaluation((wname, compiled, "solo-reference"))
+            if solo != seq:
+                bad = [i for i in range(len(seq)) if solo[i] != seq[i]]
+                ctx.violation("schedule", "result-of-a-job-depends-on-the-jobs-that-ran-before-it",
+                              {"workload": wname, "compiled": compiled, "differing_threads": bad, "switches": [], "first": 0,
+                               "threads": len(jobs), "got": repr([seq[i] for i in bad])[:500],
+                               "want": repr([solo[i] for i in bad])[:500]})
+                continue
             # number of yield points of the serial two-thread run
             s0, res0 = run_schedule(jobs, (), 0, 2)
             if [r[1] if r[0] == "ok" else r for r in res0] != seq[:2]:
